@@ -190,9 +190,11 @@ def bgp(min_size=1, pool=None):
     def from_data(draw):
         t = draw(st.sampled_from(pool))
         out = []
+        # mostly distinct variables within one triple pattern (a repeated variable only matches triples with equal terms there)
+        names = draw(st.one_of(st.none(), st.permutations(VARS), st.permutations(VARS), st.permutations(VARS)))
         for pos, x in enumerate(t):
             keep = x[0] != "b" and draw(st.integers(0, 2 if pos != 1 else 1)) == 0
-            out.append(x if keep else ["v", draw(st.sampled_from(VARS))])
+            out.append(x if keep else ["v", names[pos] if names else draw(st.sampled_from(VARS))])
         return out
     tp = st.one_of(from_data(), from_data(), from_data(), triple_pattern())
     return st.lists(tp, min_size=min_size, max_size=3).map(lambda tps: ["bgp", tps])
@@ -240,7 +242,7 @@ def patterns(draw, depth=3, dataset=False, pool=None):
     if depth <= 0 or draw(st.integers(0, 9)) < 1:
         # the empty group { } (one empty solution) is a legal leaf too
         return draw(st.one_of(bgp(pool=pool), bgp(pool=pool), bgp(pool=pool), bgp(pool=pool), values_pattern(), st.just(["bgp", []])))
-    kinds = ["join", "opt", "opt-filter", "union", "minus", "filter", "bind", "sub", "join-bgp", "join-values"]
+    kinds = ["join", "opt", "opt-filter", "union", "minus", "filter", "bind", "sub", "join-bgp", "join-values", "join-values-apart"]
     if dataset:
         kinds += ["graph", "graph-var", "graph-var-exists", "graph-var-exists"]
     k = draw(st.sampled_from(kinds))
@@ -254,7 +256,7 @@ def patterns(draw, depth=3, dataset=False, pool=None):
         return [k, A, B]
     if k == "join-bgp":
         return ["join", A, draw(bgp(pool=pool))]
-    if k == "join-values":
+    if k in ("join-values", "join-values-apart"):
         # inline data over variables the left side binds, with values taken from the data; now and then a row is written twice
         scope = sorted(ref.in_scope(A))
         if not scope:
@@ -264,7 +266,25 @@ def patterns(draw, depth=3, dataset=False, pool=None):
         rows = draw(st.lists(st.lists(st.sampled_from(terms), min_size=len(vs), max_size=len(vs)), min_size=1, max_size=3))
         if draw(st.booleans()):
             rows.append(list(rows[0]))
-        return ["join", A, ["values", vs, rows]]
+        V = ["values", vs, rows]
+        where = draw(st.integers(2, 5)) if k == "join-values" else draw(st.integers(0, 1))
+        if where <= 1:
+            # the inline data sits in a group of its own beside patterns that need not mention its variables:
+            # { A } { VALUES ?x {..} ?w :q ?z } — the two operands share ?x only through the VALUES block
+            free = [v for v in VARS if v not in scope]
+            apart = len(free) >= 2 and draw(st.integers(0, 3)) > 0
+            if pool and draw(st.integers(0, 3)) > 0:
+                # one data triple with subject and object made variables (it has solutions) ...
+                t = draw(st.sampled_from(pool))
+                a, b = draw(st.lists(st.sampled_from(free if apart else VARS), min_size=2, max_size=2, unique=True))
+                other = ["bgp", [[["v", a], t[1], ["v", b]]]]
+            else:
+                other = draw(bgp(pool=pool))
+                if apart:
+                    other = ["bgp", [[(["v", free[VARS.index(x[1]) % len(free)]] if x[0] == "v" else x) for x in t] for t in other[1]]]
+            # ... which, most of the time, mentions none of the left side's variables at all
+            V = ["join", V, other] if where == 0 else ["join", other, V]
+        return ["join", A, V] if where != 2 else ["join", V, A]
     if k == "graph-var-exists":
         # (NOT) EXISTS evaluated inside GRAPH ?g: its pattern is matched against the graph ?g ranges over, per graph
         if draw(st.booleans()):
